@@ -5,7 +5,10 @@
                                     create_parent_deletion_counter_diff, the delete-vs-patch arm of _merge_lists
    One Gallina function per Python function, same argument order.  Proofs are in RenderProofs.v. *)
 From Coq Require Import List NArith ZArith Bool Lia String.
-From NB Require Import Base.Json Base.PyStr Diff.DiffFormat Diff.Codec.
+From NB Require Import Base.Json.
+From NB Require Import Base.PyStr.
+From NB Require Import Diff.DiffFormat.
+From NB Require Import Diff.Codec.
 Import ListNotations.
 Local Open Scope N_scope.
 
